@@ -506,7 +506,12 @@ func (e *liveEnv) liveStream(r *h.Run, rng *h.Rng, mode, fam, kind, proto string
 	if mode == "C14" {
 		want := prog.outcome()
 		if last != nil && liveCls(last) != want {
-			c.r.Fail(h.Failure{Key: "outcome/receive", Family: fam, What: "Receive reported " + liveCls(last) + ", the handler's outcome is " + want, Input: c.input(), Expected: want, Actual: liveCls(last)})
+			key := "outcome/receive"
+			if !h2 && extraBig && kind != "server" {
+				// HTTP/1.1: the handler returned with a large part of the request unread
+				key = "outcome/http1/early-exit-unread-request"
+			}
+			c.r.Fail(h.Failure{Key: key, Family: fam, What: "Receive reported " + liveCls(last) + ", the handler's outcome is " + want, Input: c.input(), Expected: want, Actual: liveCls(last)})
 		}
 		if handlerReads && kind != "server" && c.handlerReturned(2*time.Second) {
 			c.obs.mu.Lock()
@@ -658,8 +663,10 @@ func (e *liveEnv) liveCancel(r *h.Run, rng *h.Rng, fam, kind, proto string, h2 b
 		c.obs.mu.Unlock()
 		if !done {
 			key := "handler-ctx/not-cancelled"
-			if !h2 && kind == "unary" && proto != "connect" {
-				key = "handler-ctx/http1/enveloped-unary-cancel"
+			if !h2 && !(kind == "unary" && proto == "connect") && !(kind == "server" && prog.Send > 0) {
+				// HTTP/1.1: net/http's server watches the connection only once the
+				// request body has been read to its end
+				key = "handler-ctx/http1/request-not-read-to-end"
 			}
 			c.r.Fail(h.Failure{Key: key, Family: fam, What: fmt.Sprintf("the handler's context did not end within %v of the client's", handlerCtxWait), Input: c.input()})
 		}
